@@ -762,6 +762,10 @@ func classifyRcptParam(key, val string, hasVal bool, f Flags, v *verdicts, r *Rc
 		case "UTF-8":
 			d, ok, raw8 := UTF8AddrDecode(addr)
 			switch {
+			case !ok && func() bool { _, ok2, _ := UTF8AddrDecode(upperHexpoints(addr)); return ok2 }():
+				// ABNF literals are case-insensitive, so HEXDIG formally admits
+				// a-f; RFC 6533 prose and RFC 3461 practice use upper case
+				v.unsp("hexpoint written with lower-case digits")
 			case !ok:
 				v.inv("ORCPT is not utf-8-addr-xtext")
 			case d == "" && raw8:
@@ -920,6 +924,23 @@ func UTF8AddrDecode(s string) (out string, ok bool, raw8 bool) {
 		}
 	}
 	return sb.String(), true, raw8
+}
+
+// upperHexpoints upper-cases the digits inside every \x{...} of s.
+func upperHexpoints(s string) string {
+	var sb strings.Builder
+	for i := 0; i < len(s); {
+		if strings.HasPrefix(s[i:], "\\x{") {
+			if j := strings.IndexByte(s[i:], '}'); j > 0 {
+				sb.WriteString("\\x{" + strings.ToUpper(s[i+3:i+j]) + "}")
+				i += j + 1
+				continue
+			}
+		}
+		sb.WriteByte(s[i])
+		i++
+	}
+	return sb.String()
 }
 
 // hexpoint implements the HEXPOINT production of RFC 6533 section 3.
